@@ -288,6 +288,23 @@ theorem ccittBranch_total (d : Dict) (c : Option Int) (al rv : Bool) (data : Lis
   · right; exact h
   · exact absurd rfl h
 
+/-- A parameter object that is not a dictionary (null, number, name, array, …) means "all defaults",
+i.e. K absent: the CCITT branch reports `PDFValueError` whatever the data — never an undocumented
+exception (upstream fixes 82c142f and f22e689). -/
+theorem ccittBranch_nondict (p : PObj) (h : ∀ d, p ≠ .dict d) (data : List UInt8) :
+    ccittBranch p data = .error .valueError := by
+  cases p with
+  | dict d => exact absurd rfl (h d)
+  | null => rfl
+  | bool b => rfl
+  | int i => rfl
+  | name s => rfl
+  | other => rfl
+  | arr xs => rfl
+
+example : ccittBranch (.arr [.int 7]) [0x80] = .error .valueError :=
+  ccittBranch_nondict _ (by intro d hd; cases hd) _
+
 /-! ## The uncompressed-mode extension is outside the property
 
 C19 quantifies over "any admissible mix of pass, vertical and horizontal modes"; the optional
